@@ -83,7 +83,7 @@ def run_case(version, explicit_kind, transport, typ, until, C: Counter):
     with warnings.catch_warnings(record=True) as wl:
         warnings.simplefilter("always")
         world = mosaik.World({"Stub": sc, "Peer": {"python": "vlab.stubs:V3Sig"}}, skip_greetings=True,
-                             mosaik_config={"start_timeout": 20, "stop_timeout": 3})
+                             mosaik_config={"start_timeout": 90, "stop_timeout": 5})
         try:
             try:
                 f = world.start("Stub", sim_id="X", cfg=cfg)
